@@ -4,6 +4,7 @@
 // write(), and polls the documented public observers between calls; pacing profiles vary the relative speed.
 #include <Vector/BLF.h>
 #include <sstream>
+#include <thread>
 #include "hcommon.h"
 #include "memfile.h"
 #include "rng.h"
@@ -12,7 +13,7 @@
 
 using namespace Vector::BLF;
 
-static volatile uint64_t sink;
+static thread_local volatile uint64_t sink;     // per application thread: two sessions may run at once
 static void busy(Rng & r, int profile) {
     uint32_t n;
     switch (profile) { case 0: n = 0; break; case 1: n = r.below(50); break; case 2: n = 200 + r.below(3000); break; case 3: n = r.chance(1, 8) ? 20000 : 0; break; case 4: n = r.below(400); break; default: n = r.chance(1, 2) ? 0 : 5000; }
@@ -24,16 +25,9 @@ static void poll(File & f, bool all) {
     sink = a;
 }
 
-int main(int argc, char ** argv) {
-    hc::out_init();
-    if (argc < 5) return 2;
-    uint64_t seed = strtoull(argv[2], nullptr, 0); long from = atol(argv[3]), to = atol(argv[4]);
-    const char * tmp = getenv("VERIF_TMP"); std::string path = std::string(tmp ? tmp : "/dev/shm") + "/tsan." + std::to_string(getpid()) + ".blf";
-    wd::start();
-    long sessions = 0, objects = 0, polls = 0; std::string sample;
-    for (long idx = from; idx < to; idx++) {
-        hc::begin_case(std::to_string(idx));
-        wd::arm(120, "tsan-session");
+struct SessOut { long objects, polls; std::string cfg; };
+static SessOut one_session(uint64_t seed, long idx, const std::string & path) {
+    long objects = 0, polls = 0;
         Rng r(Rng::mix(seed ^ 0xC11, (uint64_t)idx));
         int kind = (int)(idx % 4);            // 0 read all, 1 read k then close, 2 write, 3 write then destroy
         int profile = (int)((idx / 4) % 6);
@@ -43,7 +37,6 @@ int main(int argc, char ** argv) {
         int n = 20 + r.below(tiny ? 60 : 400);
         std::vector<long> sizes; for (int i = 0; i < n; i++) sizes.push_back(r.chance(1, 3) ? -1 : r.chance(1, 3) ? -2 : (long)r.below(tiny ? 300 : 3000));   // -2: LinMessage2 in a shorter layout version
         std::ostringstream cfg; cfg << "kind=" << kind << " profile=" << profile << " C=" << C << " level=" << level << " n=" << n << " tiny=" << tiny;
-        wd::note(cfg.str().c_str());
         if (kind < 2) {
             twin::Bytes st;
             for (int i = 0; i < n; i++) {
@@ -88,12 +81,32 @@ int main(int argc, char ** argv) {
             if (kind == 2) { f->close(); poll(*f, true); }
             delete f;
         }
+    SessOut so; so.objects = objects; so.polls = polls; so.cfg = cfg.str(); return so;
+}
+
+int main(int argc, char ** argv) {
+    hc::out_init();
+    if (argc < 5) return 2;
+    uint64_t seed = strtoull(argv[2], nullptr, 0); long from = atol(argv[3]), to = atol(argv[4]);
+    const char * tmp = getenv("VERIF_TMP"); std::string path = std::string(tmp ? tmp : "/dev/shm") + "/tsan." + std::to_string(getpid()) + ".blf";
+    wd::start();
+    long sessions = 0, objects = 0, polls = 0, two_at_once = 0; std::string sample;
+    for (long idx = from; idx < to; idx++) {
+        hc::begin_case(std::to_string(idx));
+        wd::arm(120, "tsan-session");
+        // every fourth case: two independent sessions (two files, two application threads) at the same time
+        SessOut so;
+        if (idx % 4 == 3) { SessOut so2; std::thread t([&] { so2 = one_session(seed, idx + 1000003, path + ".b"); }); so = one_session(seed, idx, path); t.join(); objects += so2.objects; polls += so2.polls; two_at_once++; unlink((path + ".b").c_str()); }
+        else so = one_session(seed, idx, path);
+        objects += so.objects; polls += so.polls;
+        std::ostringstream cfg; cfg << so.cfg;
+        wd::note(so.cfg.c_str());
         sessions++;
         if (sample.empty()) sample = cfg.str();
         wd::disarm();
     }
     unlink(path.c_str());
-    std::ostringstream o; o << "{\"sessions\":" << sessions << ",\"objects\":" << objects << ",\"observer_polls\":" << polls << ",\"samples\":[" << hc::jstr(sample) << "]}";
+    std::ostringstream o; o << "{\"sessions\":" << sessions << ",\"objects\":" << objects << ",\"observer_polls\":" << polls << ",\"cases_with_two_sessions_at_once\":" << two_at_once << ",\"samples\":[" << hc::jstr(sample) << "]}";
     hc::stat(o.str());
     return 0;
 }
